@@ -25,7 +25,7 @@ char *__real_strncpy(char *, const char *, size_t); char *__wrap_strncpy(char *d
 /* ---------------------------------------------------------------- stack grid */
 typedef struct { const char *name, *op, *cl, *sep; int per_line; } construct;
 static const construct CONS[] = {
-	{ "bracket", "[", "]", "a ", 0 }, { "footnote-bracket", "[^", "]", "a ", 0 }, { "image-bracket", "![", "]", "a ", 0 }, { "paren", "(", ")", "a ", 0 }, { "angle", "<", ">", "a ", 0 },
+	{ "bracket", "[", "]", "a ", 0 }, { "footnote-bracket", "[^", "]", "a ", 0 }, { "image-bracket", "![", "]", "a ", 0 }, { "variable-bracket", "[%", "]", "a ", 0 }, { "citation-bracket", "[#", "]", "a ", 0 }, { "glossary-bracket", "[?", "]", "a ", 0 }, { "abbreviation-bracket", "[>", "]", "a ", 0 }, { "paren", "(", ")", "a ", 0 }, { "angle", "<", ">", "a ", 0 },
 	{ "star", "*", "*", "a ", 0 }, { "strong", "**", "**", "a ", 0 }, { "underscore", "_", "_", "a ", 0 }, { "backtick", "`", "`", "a ", 0 }, { "double-quote", "\"", "\"", "a ", 0 }, { "single-quote", "'", "'", "a ", 0 },
 	{ "critic-add", "{++", "++}", "a ", 0 }, { "critic-del", "{--", "--}", "a ", 0 }, { "critic-hi", "{==", "==}", "a ", 0 }, { "critic-com", "{>>", "<<}", "a ", 0 }, { "critic-sub", "{~~", "~~}", "a~>b ", 0 },
 	{ "math-dollar", "$", "$", "a ", 0 }, { "math-paren", "\\\\(", "\\\\)", "a ", 0 }, { "superscript", "^", "^", "a", 0 }, { "subscript", "~", "~", "a", 0 }, { "double-brace", "{{", "}}", "a", 0 },
@@ -156,7 +156,7 @@ int main(int argc, char **argv) {
 	if (cl) { char *copy = strdup(cl); for (char *p = strtok(copy, "\n"); p; p = strtok(NULL, "\n")) { FILE *f = fopen(p, "rb"); if (!f) continue; fseek(f, 0, SEEK_END); long n = ftell(f); rewind(f); unsigned char *b = malloc(n + 3); if (fread(b, 1, n, f) != (size_t)n) { fclose(f); continue; } fclose(f); b[n] = '\n'; b[n + 1] = '\n'; b[n + 2] = 0; if (memchr(b, 0, n) || strstr((char *)b, "{{TOC")) { free(b); continue; }   /* k copies of a TOC make the OUTPUT quadratic by definition */ const char *bn = strrchr(p, '/'); snprintf(nm, sizeof nm, "corpus:%.50s", bn ? bn + 1 : p); add_seed(nm, b, n + 2); } }
 	if (thorough) { KMAX = 64; }
 	k_level L[] = {
-		{ "q_stack", (uint64_t)NCONS * 5 * 3 * NSW, run_stack, desc_stack, "q", "29 nesting constructs x {openers only, matched, closers only} x depth {10,100,1e3,1e4,1e5} x {html,latex,fodt,opml,itmz,critic accept,critic reject,opml import}" },
+		{ "q_stack", (uint64_t)NCONS * 5 * 3 * NSW, run_stack, desc_stack, "q", "33 nesting constructs x {openers only, matched, closers only} x depth {10,100,1e3,1e4,1e5} x {html,latex,fodt,opml,itmz,critic accept,critic reject,opml import}" },
 		{ "t_stack", (uint64_t)NCONS * 6 * 3 * NSW, run_stack, desc_stack, "t", "same grid with depths up to 1e5 and 1e6" },
 #ifdef VP_COST
 		{ "cost", (uint64_t)n_seeds * 12, run_cost, desc_cost, "qt", "seeds (every line kind, block/pathological seeds, prefix/unit/suffix seeds, corpus documents) x {html,latex,fodt,opml} x {default, random ids + obfuscation + complete, compatibility}: cost(d^2k)/cost(d^k) <= 2.6 for doubling k" },
